@@ -749,8 +749,8 @@ fn one_op<B: BmCtl>(w: &mut GmWorld<B>, tracked: bool, step: usize) -> Step {
             };
             let n = gen_nlen(size - off.min(size));
             // 0 write, 1 read, 2 write_obj::<u64>, 3 store::<u32>, 4 read_exact_volatile_from(&[u8]), 5 load::<u32>,
-            // 6 read_slice, 7 write_slice, 8 read_obj::<u64>
-            let form = cx().a(9);
+            // 6 read_slice, 7 write_slice, 8 read_obj::<u64>, 9 read_volatile_from(&[u8]), 10 write_volatile_to(Vec)
+            let form = cx().a(11);
             let off = if form == 3 || form == 5 { off & !3 } else { off };
             let n = match form {
                 2 | 8 => 8,
@@ -759,7 +759,7 @@ fn one_op<B: BmCtl>(w: &mut GmWorld<B>, tracked: bool, step: usize) -> Step {
             };
             let base = w.regs[i].base;
             let gaddr = base + off as u64;
-            let names = ["region.write", "region.read", "region.write_obj", "region.store", "region.read_exact_volatile_from", "region.load", "region.read_slice", "region.write_slice", "region.read_obj"];
+            let names = ["region.write", "region.read", "region.write_obj", "region.store", "region.read_exact_volatile_from", "region.load", "region.read_slice", "region.write_slice", "region.read_obj", "region.read_volatile_from", "region.write_volatile_to"];
             st.kind = names[form as usize];
             st.desc = format!("find_region({:#x}).{}(len {}, {})", base, &st.kind[7..], n, off);
             let data = compl(w, gaddr, n);
@@ -810,6 +810,21 @@ fn one_op<B: BmCtl>(w: &mut GmWorld<B>, tracked: bool, step: usize) -> Step {
                     st.got = go_u(catch(|| reg.write_slice(&data, at)));
                     st.exp = Some(if off >= size { GO::Backend } else if k < n { GO::Partial(n, k) } else { GO::Unit });
                 }
+                9 => {
+                    // up-to forms are capped at the end of the region and report what moved
+                    let mut src = &data[..];
+                    st.got = go_n(catch(|| reg.read_volatile_from(at, &mut src, n)));
+                    // (a transfer that starts exactly at the end moves nothing; `off` is never past the end here)
+                    st.exp = Some(GO::Count(k));
+                }
+                10 => {
+                    let mut sink: Vec<u8> = Vec::new();
+                    st.got = go_n(catch(|| reg.write_volatile_to(at, &mut sink, n)));
+                    st.exp = Some(GO::Count(k));
+                    if st.got == GO::Count(k) && off < size && sink[..] != w.model_read(gaddr, k)[..] {
+                        st.got = GO::Other("sink received wrong bytes".into());
+                    }
+                }
                 8 => {
                     st.got = go_b(catch(|| reg.read_obj::<u64>(at).map(|v| bytes_of(&v))));
                     st.exp = Some(if off >= size { GO::Backend } else if k < 8 { GO::Partial(8, k) } else { GO::Bytes(w.model_read(gaddr, 8)) });
@@ -821,7 +836,7 @@ fn one_op<B: BmCtl>(w: &mut GmWorld<B>, tracked: bool, step: usize) -> Step {
             }
             // what the model says was written
             let wrote = match form {
-                0 if off < size => k,
+                0 | 9 if off < size => k,
                 2 | 7 if off < size => k,
                 3 if off + 4 <= size && aligned => 4,
                 4 if off + n <= size => n,
@@ -872,13 +887,18 @@ fn one_op<B: BmCtl>(w: &mut GmWorld<B>, tracked: bool, step: usize) -> Step {
             let sz = TYPE_SIZES[ti];
             let typed = cx().a(3) != 0;
             let nel = if room1 / sz == 0 { 0 } else { 1 + cx().a((room1 / sz).min(40) as u32) as usize };
-            let slen = if typed { nel * sz } else { (1 + cx().a(room1.max(1).min(200) as u32) as usize).min(room1) };
-            let dlen = if room2 == 0 { 0 } else { (1 + cx().a(room2.min(300) as u32) as usize).min(room2) };
+            let long = cx().a(4) == 0;
+            let slen = if typed { nel * sz } else { (1 + cx().a(room1.max(1).min(if long { 7000 } else { 200 }) as u32) as usize).min(room1) };
+            let dlen = if room2 == 0 { 0 } else { (1 + cx().a(room2.min(if long { 7000 } else { 300 }) as u32) as usize).min(room2) };
             st.kind = if typed { "array.copy_to_volatile_slice between guest ranges" } else { "slice.copy_to_volatile_slice between guest ranges" };
             st.desc = format!("get_slice({:#x}, {}){}.copy_to_volatile_slice(get_slice({:#x}, {}))", addr, slen, if typed { format!(".get_array_ref::<{}>(0, {})", TYPE_NAMES[ti], nel) } else { String::new() }, addr2, dlen);
             let k = slen.min(dlen);
-            let overlap = addr < addr2.wrapping_add(dlen as u64) && addr2 < addr.wrapping_add(slen as u64);
-            if slen == 0 || dlen == 0 || overlap {
+            // overlapping ranges are allowed: the copy behaves like memmove (the bytes read are those that
+            // were there before the copy began)
+            if addr < addr2.wrapping_add(dlen as u64) && addr2 < addr.wrapping_add(slen as u64) {
+                cx().count("probe.guest_to_guest_copy_between_overlapping_ranges");
+            }
+            if slen == 0 || dlen == 0 {
                 st.desc.push_str(" skipped");
                 st.exp = Some(GO::Unit);
             } else {
